@@ -315,5 +315,148 @@ theorem hput_spec (P : Params κ) (hP : P.Good) (m : Map κ) (hwf : WF P m) (k :
     obtain ⟨g1, g2, g3⟩ := hput2_spec P hP m hwf hroom k v
     exact ⟨g1, g2, g3.transfer (Unchanged.refl m) (SameFlags.refl m) rfl (by omega)⟩
 
+/-- `m_map_put`: the dictionary view of `hashmap_put`, plus the key-copy events -/
+theorem put_spec (P : Params κ) (hP : P.Good) (m : Map κ) (hwf : WF P m) (k : κ) (v : Nat) :
+    WF P (put P m k v).1 ∧ SameFlags m (put P m k v).1 ∧
+    ((v = 0 ∧ put P m k v = (m, [], -22)) ∨
+     (v ≠ 0 ∧ ∃ r, PutSpec m k v (P.maxSize < 4 * m.size) r ∧ (put P m k v).1 = r.1 ∧ (put P m k v).2.2 = r.2.2 ∧
+        (put P m k v).2.1 =
+          if (m.dup || m.autofree) then
+            [Ev.kalloc k] ++ r.2.1 ++ (if r.2.2 ≠ 0 ∨ r.1.length = m.length then [Ev.kfree k] else [])
+          else r.2.1)) := by
+  obtain ⟨g1, g2, g3⟩ := hput_spec P hP m hwf k v
+  unfold put
+  by_cases hv : v = 0
+  · rw [if_pos hv]; exact ⟨hwf, SameFlags.refl m, Or.inl ⟨hv, rfl⟩⟩
+  · rw [if_neg hv]
+    by_cases ho : (m.dup || m.autofree) = true
+    · simp only [ho, Bool.not_true, Bool.false_eq_true, if_false]
+      refine ⟨g1, g2, Or.inr ⟨hv, hput P m k v, g3, rfl, rfl, ?_⟩⟩
+      simp only [if_true]
+      congr 2
+      simp [Bool.or_eq_true, beq_iff_eq]
+    · simp only [ho, Bool.not_false, if_true]
+      exact ⟨g1, g2, Or.inr ⟨hv, hput P m k v, g3, rfl, rfl, by simp⟩⟩
+
+/-! ## `m_map_get`, `m_map_contains` -/
+
+theorem no_entries_of_length_zero (P : Params κ) (m : Map κ) (hwf : WF P m) (h0 : m.length = 0) (e : κ × Nat) :
+    ¬ Has m.cells e := by
+  rw [has_iff_mem]
+  have : occ m.cells = 0 := by rw [← hwf.len]; exact h0
+  unfold occ at this
+  rw [List.length_eq_zero_iff] at this
+  rw [this]; simp
+
+theorem get_spec (P : Params κ) (hP : P.Good) (m : Map κ) (hwf : WF P m) (k : κ) (v : Nat) :
+    get P m k = some v ↔ Has m.cells (k, v) := by
+  have hle : m.cells.length ≤ P.maxSize := hwf.size.le
+  have hn : 0 < m.cells.length := by have := hwf.size.pos hP; unfold Map.size at this; omega
+  unfold get
+  by_cases h0 : m.length = 0
+  · rw [if_pos h0]
+    constructor
+    · intro h; cases h
+    · intro h; exact absurd h (no_entries_of_length_zero P m hwf h0 _)
+  · rw [if_neg h0]
+    constructor
+    · intro h
+      cases hf : entryFind P m.cells k false with
+      | none => rw [hf] at h; cases h
+      | some i =>
+        rw [hf] at h
+        simp only at h
+        obtain ⟨d, _, _, _, h4⟩ := entryFind_sound P hP m.cells hle k false i hf
+        rcases h4 with ⟨w, hw⟩ | ⟨hfe, _⟩
+        · rw [hw] at h; simp at h; subst h
+          exact ⟨i % m.cells.length, Nat.mod_lt _ hn, by rw [slot_mod]; exact hw⟩
+        · cases hfe
+    · rintro ⟨j, hj, hs⟩
+      obtain ⟨i, hi, hm⟩ := entryFind_complete P hP m.cells hle hwf.tbl false j k v hj hs
+      rw [hi]
+      simp only
+      rw [← slot_mod, hm, hs]; rfl
+
+theorem get_none_spec (P : Params κ) (hP : P.Good) (m : Map κ) (hwf : WF P m) (k : κ) :
+    get P m k = none ↔ ∀ v, ¬ Has m.cells (k, v) := by
+  constructor
+  · intro h v hv
+    rw [← get_spec P hP m hwf] at hv
+    rw [h] at hv; cases hv
+  · intro h
+    cases hg : get P m k with
+    | none => rfl
+    | some v => exact absurd ((get_spec P hP m hwf k v).mp hg) (h v)
+
+theorem contains_spec (P : Params κ) (hP : P.Good) (m : Map κ) (hwf : WF P m) (k : κ) :
+    contains P m k = true ↔ ∃ v, Has m.cells (k, v) := by
+  unfold contains
+  rw [Option.isSome_iff_exists]
+  constructor
+  · rintro ⟨v, hv⟩; exact ⟨v, (get_spec P hP m hwf k v).mp hv⟩
+  · rintro ⟨v, hv⟩; exact ⟨v, (get_spec P hP m hwf k v).mpr hv⟩
+
+/-! ## `clear_elem`, `m_map_remove` -/
+
+theorem clearElem_eq (P : Params κ) (m : Map κ) (i : Nat) (k : κ) (v : Nat) (hs : slot m.cells i = some (k, v)) :
+    clearElem P m i = ({ m with cells := cleared P m.cells i, length := m.length - 1 },
+      (if m.autofree then [Ev.kfree k] else []) ++ (if m.dtor then [Ev.dtor v] else [])) := by
+  unfold clearElem cleared Map.size
+  rw [hs]
+
+/-- removing the entry in slot `i`: all and only the other entries stay -/
+theorem clearElem_spec (P : Params κ) (hP : P.Good) (m : Map κ) (hwf : WF P m) (i : Nat) (k : κ) (v : Nat)
+    (hs : slot m.cells i = some (k, v)) :
+    WF P (clearElem P m i).1 ∧ SameFlags m (clearElem P m i).1 ∧
+    (clearElem P m i).1.length + 1 = m.length ∧ (clearElem P m i).1.size = m.size ∧
+    (∀ e, Has (clearElem P m i).1.cells e ↔ (Has m.cells e ∧ e.1 ≠ k)) ∧
+    (clearElem P m i).2 = (if m.autofree then [Ev.kfree k] else []) ++ (if m.dtor then [Ev.dtor v] else []) := by
+  rw [clearElem_eq P m i k v hs]
+  have hocc : occ m.cells < m.cells.length := by have := hwf.room; have := hwf.len; unfold Map.size at *; omega
+  have h1 := occ_cleared P m.cells i (k, v) hs hocc
+  have hlen := length_cleared P m.cells i
+  refine ⟨?_, ⟨rfl, rfl, rfl, rfl⟩, ?_, by simp [Map.size, hlen], ?_, rfl⟩
+  · constructor
+    · simpa [Map.size, hlen] using hwf.size
+    · exact TWF_cleared P hP m.cells hwf.size hwf.tbl i (k, v) hs hocc
+    · have := hwf.len; simp only; omega
+    · have := hwf.room; simp only [Map.size, hlen]; unfold Map.size at this; omega
+  · have := hwf.len; simp only; omega
+  · intro e
+    have := mem_cleared P m.cells hwf.tbl i k v hs hocc e
+    unfold Has
+    simp only [hlen]
+    exact this
+
+/-- `m_map_remove` deletes exactly the named entry, or fails without effect -/
+theorem remove_spec (P : Params κ) (hP : P.Good) (m : Map κ) (hwf : WF P m) (k : κ) :
+    WF P (remove P m k).1 ∧ SameFlags m (remove P m k).1 ∧
+    ((∃ v, Has m.cells (k, v) ∧ (remove P m k).2.2 = 0 ∧ (remove P m k).1.length + 1 = m.length ∧
+        (remove P m k).1.size = m.size ∧
+        (∀ e, Has (remove P m k).1.cells e ↔ (Has m.cells e ∧ e.1 ≠ k)) ∧
+        (remove P m k).2.1 = (if m.autofree then [Ev.kfree k] else []) ++ (if m.dtor then [Ev.dtor v] else [])) ∨
+     ((∀ v, ¬ Has m.cells (k, v)) ∧ (remove P m k).1 = m ∧ (remove P m k).2.1 = [] ∧
+        (remove P m k).2.2 = if m.length = 0 then -22 else -2)) := by
+  have hle : m.cells.length ≤ P.maxSize := hwf.size.le
+  have hn : 0 < m.cells.length := by have := hwf.size.pos hP; unfold Map.size at this; omega
+  unfold remove
+  by_cases h0 : m.length = 0
+  · rw [if_pos h0]
+    exact ⟨hwf, SameFlags.refl m, Or.inr ⟨fun v => no_entries_of_length_zero P m hwf h0 _, rfl, rfl, by simp [h0]⟩⟩
+  · rw [if_neg h0]
+    cases hf : entryFind P m.cells k false with
+    | none =>
+      simp only
+      refine ⟨hwf, SameFlags.refl m, Or.inr ⟨?_, by first | rfl | trivial, by first | rfl | trivial, by simp [h0]⟩⟩
+      rintro v ⟨j, hj, hs⟩
+      obtain ⟨i, hi, _⟩ := entryFind_complete P hP m.cells hle hwf.tbl false j k v hj hs
+      rw [hf] at hi; cases hi
+    | some i =>
+      simp only
+      obtain ⟨d, _, _, _, h4⟩ := entryFind_sound P hP m.cells hle k false i hf
+      rcases h4 with ⟨v, hv⟩ | ⟨hfe, _⟩
+      · obtain ⟨g1, g2, g3, g4, g5, g6⟩ := clearElem_spec P hP m hwf i k v hv
+        exact ⟨g1, g2, Or.inl ⟨v, ⟨i % m.cells.length, Nat.mod_lt _ hn, by rw [slot_mod]; exact hv⟩, by first | rfl | trivial, g3, g4, g5, g6⟩⟩
+      · cases hfe
+
 end Lm.Struct.Map
--- touch
